@@ -163,29 +163,30 @@ def locatorMaxEntries (h : Nat) : Nat :=
 
 def Index.known (idx : Index) (n : Nat) : Bool := n < idx.size
 
+/-- the most recent locator entry on the main chain, else the view's genesis -/
+def locateStart (idx : Index) (v : View) (locator : List Nat) : Option Nat :=
+  match locator.find? (fun x => idx.known x && v.contains idx x) with
+  | some s => some s
+  | none => v.genesis
+
+/-- number of entries from `s` (the node after the start): to the tip, or to the stop node when
+    it is on the main chain at or above `s`; capped at `max` -/
+def locateTotal (idx : Index) (v : View) (s stop max : Nat) : Nat :=
+  let tipH : Nat := match v.tip with | some t => idx.height t | none => 0
+  let total : Nat :=
+    if idx.known stop ∧ v.contains idx stop = true ∧ idx.height stop ≥ idx.height s
+    then (idx.height stop - idx.height s) + 1 else (tipH - idx.height s) + 1
+  if total > max then max else total
+
 /-- `locateInventory` : start node and count -/
 def locateInventory (idx : Index) (v : View) (locator : List Nat) (stop : Nat) (max : Nat) :
     Option Nat × Nat :=
-  let stopNode : Option Nat := if idx.known stop then some stop else none
   if locator.isEmpty then
-    match stopNode with
-    | none => (none, 0)
-    | some s => (some s, 1)
+    (if idx.known stop then (some stop, 1) else (none, 0))
   else
-    let start : Option Nat :=
-      match locator.find? (fun x => idx.known x && v.contains idx x) with
-      | some s => some s
-      | none => v.genesis
-    match v.next idx start with
+    match v.next idx (locateStart idx v locator) with
     | none => (none, 0)
-    | some s =>
-      let tipH : Nat := match v.tip with | some t => idx.height t | none => 0
-      let total : Nat := (tipH - idx.height s) + 1
-      let total := match stopNode with
-        | some st => if v.contains idx st ∧ idx.height st ≥ idx.height s
-                     then (idx.height st - idx.height s) + 1 else total
-        | none => total
-      (some s, if total > max then max else total)
+    | some s => (some s, locateTotal idx v s stop max)
 
 /-- the copy loop of `locateBlocks` / `locateHeaders`; `none` = nil dereference -/
 def collect (idx : Index) (v : View) : Nat → Option Nat → Option (List Nat)
@@ -196,8 +197,8 @@ def collect (idx : Index) (v : View) : Nat → Option Nat → Option (List Nat)
 /-- `locateBlocks` / `locateHeaders` -/
 def locateBlocks (idx : Index) (v : View) (locator : List Nat) (stop : Nat) (max : Nat) :
     Option (List Nat) :=
-  let (node, total) := locateInventory idx v locator stop max
-  if total = 0 then some [] else collect idx v total node
+  let r := locateInventory idx v locator stop max
+  if r.2 = 0 then some [] else collect idx v r.2 r.1
 
 /-! ### height-range queries -/
 
